@@ -172,7 +172,10 @@ def jd_month_tables(ctx, ym):
 
 
 def run(ctx):
+    ctx.exhaustive = False
+    ctx.exhaustive_note = 'the (year, month) tables are complete; dates inside a month are covered by the additivity lemma, not enumerated'
     from rules import shared
+    ctx.include('effect_inventory', shared.effect_inventory)   # no new process-wide mutable state (MIR statics inventory)
     ctx.include('jd_tables', shared.jd_tables)           # civil date <-> day number per (year, month) (shared, cached per source hash)
     I = ctx.interp(fuel=30000000)
     t = T(I)
